@@ -1,7 +1,7 @@
 #!/bin/bash
 # usage: confirm_seed.sh <ID> <A|B>  — confirms a seeded change in its scratch worktree /tmp/wt/<ID>:
 #   with the patch: builds, existing suite passes, demo fails; without the patch: demo passes.
-id="$1"; v="$2"; wt=/tmp/wt/$id; out=/tmp/seeded-out/$id
+id="$1"; v="$2"; wt=${WT_ROOT:-/tmp/wt}/$id; out=${OUT_ROOT:-/tmp/seeded-out}/$id
 feat="${FEATURES:-}"
 cd "$wt" || exit 2
 git checkout -q -- . ; rm -f tests/seeded_demo.rs
